@@ -335,6 +335,150 @@ def check_units(rep, units, version, var):
         shutil.rmtree(d, ignore_errors=True)
 
 
+# ---------------------------------------------------------------------------------------------------------------- example networks
+def symbolise(V, wn):
+    """every length, diameter, roughness, minor loss, elevation, base demand, tank level / diameter and reservoir head of a model that
+    was read from an example INP file becomes a proxy in a band around its value (validity of tank levels kept by separated bands)"""
+    def band(name, v, lo=0.5, hi=1.5, pad=0.0):
+        v = float(v)
+        a, b = sorted((v * lo, v * hi))
+        return V.real(name, a - pad, b + pad)
+    for n, p in wn.pipes():
+        p._length = band('len_' + n, p._length)
+        p._diameter = band('diam_' + n, p._diameter)
+        p._roughness = band('rough_' + n, p._roughness)
+        if p._minor_loss:
+            p._minor_loss = band('minor_' + n, p._minor_loss)
+    for n, j in wn.junctions():
+        j._elevation = band('elev_' + n, j._elevation, pad=1.0)
+        for k, ts in enumerate(j.demand_timeseries_list):
+            if ts._base:
+                ts._base = band('dem_%s_%d' % (n, k), ts._base)
+    for n, t in wn.tanks():
+        t._elevation = band('elev_' + n, t._elevation, pad=1.0)
+        lo_, hi_, init = float(t._min_level), float(t._max_level), float(t._init_level)
+        span = hi_ - lo_
+        t._min_level = V.real('min_' + n, lo_, lo_ + 0.1 * span)
+        t._max_level = V.real('max_' + n, hi_ - 0.1 * span, hi_)
+        t._init_level = V.real('init_' + n, lo_ + 0.2 * span, hi_ - 0.2 * span)
+        t._diameter = band('diam_' + n, t._diameter)
+        t._head = t._init_level + t._elevation
+        t._prev_head = t._head
+    for n, r in wn.reservoirs():
+        r.head_timeseries._base = band('head_' + n, r.head_timeseries._base, pad=1.0)
+    for n, v in wn.valves():
+        v.diameter = band('diam_' + n, v.diameter)
+
+
+def check_example(rep, fname, units):
+    tag = 'example/%s/%s' % (os.path.basename(fname), units)
+    undo = [symx.install_shims(m, names) for m, names in MODS]
+    d = tempfile.mkdtemp(prefix='vf12.', dir='/var/tmp')
+    try:
+        def harness(c):
+            V = SymVars(c)
+            wn = NIO.read_inpfile(fname)
+            symbolise(V, wn)
+            return (V, c) + cycle(wn, units, 2.2, d)
+        n = 0
+        bad = set()
+        cons = []
+        for path in symx.explore(harness, max_paths=50, timeout_s=1200):
+            n += 1
+            cons = path.constraints()
+            if path.exc is not None:
+                if 'raised' not in bad:
+                    bad.add('raised')
+                    rep.counterexample('inp/%s/raised' % tag, dict(example=fname, units=units, why='%s: %s' % (type(path.exc).__name__, _TOKEN.sub('<num>', str(path.exc))[:300])), 'example')
+                continue
+            V, c, d0, d1, d2, t1, t2 = path.value
+            n0, n1, n2 = normalise(d0), normalise(d1), normalise(d2)
+            wit = lambda mdl, V=V: V.witness(mdl, example=fname, units=units)
+            mism, claims = [], []
+            compare_tol(n0, n1, '', mism, claims)
+            if mism:
+                if 'equivalent' not in bad:
+                    bad.add('equivalent')
+                    m_ = symx.satisfiable(cons)
+                    rep.counterexample('inp/%s/equivalent' % tag, dict(V.witness(m_.model, example=fname, units=units), why='; '.join(mism[:4])), 'example')
+            else:
+                for k in range(0, len(claims), 100):
+                    if 'equivalent' in bad:
+                        break
+                    if not rep.prove('inp/%s/equivalent/%d/path%d' % (tag, k // 100, n), cons, z3.And(*[cl for _, cl in claims[k:k + 100]]), wit, 'example',
+                                     sample='%d numeric attributes within the precision of the file' % len(claims[k:k + 100])):
+                        bad.add('equivalent')
+            tokvals = c.__dict__.get('tokvals', {})
+            readback = lambda hit: tokvals[id(hit)][1] if id(hit) in tokvals else hit[0]
+            mism, claims = text_claims(t1, t2, readback)
+            if mism:
+                if 'text' not in bad:
+                    bad.add('text')
+                    m_ = symx.satisfiable(cons)
+                    rep.counterexample('inp/%s/second-file' % tag, dict(V.witness(m_.model, example=fname, units=units), why='; '.join(mism[:4])), 'example')
+            else:
+                for k in range(0, len(claims), 100):
+                    if 'text' in bad:
+                        break
+                    if not rep.prove('inp/%s/second-file/%d/path%d' % (tag, k // 100, n), cons, z3.And(*[cl for _, cl in claims[k:k + 100]]), wit, 'example',
+                                     sample='%d numbers of the second file equal what was read from the first' % len(claims[k:k + 100])):
+                        bad.add('text')
+            mism, claims = compare(n1, n2)
+            if mism:
+                if 'second-model' not in bad:
+                    bad.add('second-model')
+                    m_ = symx.satisfiable(cons)
+                    rep.counterexample('inp/%s/second-model' % tag, dict(V.witness(m_.model, example=fname, units=units), why='; '.join(mism[:4])), 'example')
+            else:
+                hard = [cl for _, cl in claims if not z3.is_true(z3.simplify(cl))]
+                for k in range(0, max(len(hard), 1), 50):
+                    if 'second-model' in bad:
+                        break
+                    if not rep.prove('inp/%s/second-model/%d/path%d' % (tag, k // 50, n), cons, z3.And(*hard[k:k + 50]) if hard else z3.BoolVal(True), wit, 'example',
+                                     sample='%d numeric attributes unchanged by the second cycle' % len(claims)):
+                        bad.add('second-model')
+        rep.extra['paths_' + tag] = n
+        if not bad and n:
+            rep.reach('inp/' + tag, cons)
+    finally:
+        for u in undo:
+            u()
+        shutil.rmtree(d, ignore_errors=True)
+
+
+def replay_example(i):
+    fname, units = i['example'], i['units']
+    vals = {k: v for k, v in i.items() if k not in ('example', 'units', 'why')}
+    d = tempfile.mkdtemp(prefix='vf12r.', dir='/var/tmp')
+    try:
+        wn = NIO.read_inpfile(fname)
+        if vals:
+            symbolise(ConcVars(_Lenient(vals)), wn)
+        try:
+            d0, d1, d2, t1, t2 = cycle(wn, units, 2.2, d)
+        except Exception as ex:
+            return 'write/read raised %s: %s' % (type(ex).__name__, str(ex)[:300])
+        n0, n1, n2 = normalise(d0), normalise(d1), normalise(d2)
+        mism = []
+        compare_tol(n0, n1, '', mism, [])
+        if mism:
+            return 'the model read back differs: ' + '; '.join(mism[:4])
+        if sections(t1) != sections(t2):
+            return 'the second file differs from the first'
+        mism, _ = compare(n1, n2, tol=(1e-13, 1e-15))
+        if mism:
+            return 'a second write/read cycle changes the model: ' + '; '.join(mism[:4])
+        return None
+    finally:
+        shutil.rmtree(d, ignore_errors=True)
+
+
+class _Lenient(dict):
+    """witness values by name; a name the witness does not mention keeps the middle of its band"""
+    def __missing__(self, k):
+        raise KeyError(k)
+
+
 def replay_inp(i):
     """plain floats, the real writer and reader"""
     var, units, version = i['var'], i['units'], i['version']
@@ -398,4 +542,8 @@ def run(rep, only=None):
     for tv in TIME_VARIANTS:
         for u in (UNITS if rep.tier == 'thorough' else ['GPM', 'CMH']):
             tasks.append(('%s-%s' % (tv['name'], u), check_units, (u, 2.2, tv)))
+    if rep.tier == 'thorough':
+        for f, us in (('Net3.inp', ['GPM', 'LPS', 'CMH']), ('Net1.inp', ['GPM', 'MLD']), ('Net6.inp', ['GPM'])):
+            for u in us:
+                tasks.append(('example-%s-%s' % (f, u), check_example, ('/repo/examples/networks/' + f, u)))
     run_parallel(rep, tasks)
